@@ -170,3 +170,11 @@ package ringqp
 //@ fieldorder Poly
 //@   property C08
 //
+
+// A decoder stores what it decodes in the caller's object (C08; finding F41): see /verif/cmd/lvc/fieldordercheck.go
+//@ decodes Poly.ReadFrom
+//@   property C08
+//
+//@ decodes Poly.UnmarshalBinary
+//@   property C08
+//
